@@ -9,6 +9,7 @@ import (
 	"os"
 	"path/filepath"
 	"reflect"
+	"strings"
 
 	"verif/internal/pdfdoc"
 
@@ -282,7 +283,7 @@ func c01Case(i int, raw []byte) Result {
 			continue
 		}
 		if !reflect.DeepEqual(mv.Field(k).Interface(), tv.Field(k).Interface()) {
-			feat += fmt.Sprintf(":%s=%v", mv.Type().Field(k).Tag.Get("json"), mv.Field(k).Interface())
+			feat += fmt.Sprintf(":%s=%v", strings.Split(mv.Type().Field(k).Tag.Get("json"), ",")[0], mv.Field(k).Interface())
 		}
 	}
 	x := fail(cl, "C01:"+cl+feat, what+fmt.Sprintf(" (layout %s; minimal failing layout options%s)", mustJSON(l), feat),
